@@ -138,6 +138,7 @@ func C12(c *Ctx) {
 	r.Rule("R12.1", "refusal before mutation: in RollbackState and RollbackBlockChain no path reaches the return of ErrorRollbackToHigherNumber / ErrorRollbackTooMuch after a cache clear, batch operation or ledger field store; Ledger.Rollback attempts the chain rollback only across the no-error edge of the state rollback.")
 	r.Rule("R12.2", "caches purged: every path of RollbackState that reverts a journal first clears the in-block account map and the account cache; AccountCache.clear purges every lru layer of the cache struct.")
 	r.Rule("R12.3", "journal completeness: the storage kinds written by Commit (account record, code, state key) are exactly the kinds revertJournal restores, each with put and delete; the journal record of a height is put into the same batch as that height's data and the max-height marker; each reverted height deletes its journal record and lowers the max-height marker in the batch that carries the reverted data.")
+	r.Rule("R12.5", "restore only what changed: in revertJournal every Put / Delete of an account record lies behind the entry's AccountChanged flag and every Put / Delete of code behind CodeChanged; an entry that records only storage changes must leave the stored account record (balance, nonce, code hash) untouched.")
 	r.Rule("R12.4", "root chain continues: after reverting, every successful path stores prevJnlHash (re-read from the target height's journal) and maxJnlHeight.")
 	r.NotDecided = append(r.NotDecided, "value-level equality of restored state; re-execution equivalence")
 
@@ -277,6 +278,32 @@ func C12(c *Ctx) {
 			}
 		}
 		r.Check(okBatch, "R12.3", "RollbackState: reverted data and marker share the iteration's batch", c.P.Pos(rs.Pos()), "revertJournal(journal, batch) and batch.Delete(journal-<i>) use one batch", "the reverted data and the journal bookkeeping of a height are written by different batches")
+	}
+	// R12.5
+	if rj != nil {
+		ops := batchOps(rj)
+		n5 := 0
+		for kind, flag := range map[string]string{"account": "AccountChanged", "code": "CodeChanged"} {
+			fl := flag
+			es := condEdges(rj, func(f core.Fact, ifi *ssa.If) (bool, int) {
+				if f.Kind == core.FBool && f.Field == fl {
+					return true, holdsEdge(f)
+				}
+				return false, 0
+			})
+			isOp := func(in ssa.Instruction) bool {
+				for _, op := range []string{"Put", "Delete"} {
+					for _, x := range ops[kind][op] {
+						if x == in {
+							return true
+						}
+					}
+				}
+				return false
+			}
+			n5 += c.behindEdges("R12.5", "revertJournal: "+kind, rj, es, isOp, "journal."+fl, "restore of the "+kind+" record")
+		}
+		r.Floor("R12.5", "account / code restore operations in revertJournal", n5, 4)
 	}
 	// captured = restored: getJournalIfModified sets PrevAccount/PrevCode/PrevStates; revertJournal reads them
 	if gj := c.fn("R12.3", "internal/ledger.(*SimpleAccount).getJournalIfModified"); gj != nil && rj != nil {
